@@ -55,6 +55,10 @@ impl Proposal {
     /// Returns true if this proposal is sure to pass (even before expiration, if no future
     /// sequence of possible votes could cause it to fail).
     pub fn is_passed(&self, block: &BlockInfo) -> bool {
+        // a proposal nobody voted yes on can never pass (e.g. when everybody abstains)
+        if self.votes.yes == 0 {
+            return false;
+        }
         match self.threshold {
             Threshold::AbsoluteCount {
                 weight: weight_needed,
